@@ -937,6 +937,77 @@ def run(only=None):
         s.done()
         rep.log(f"hrnp_corruption: {decl} cases, {len(s.viol)} violation signatures, {s.wall}s")
 
+    # ---- 6: the verdict belongs to the parsed object ------------------------------------------------
+    if want("indicator_is_per_object"):
+        s = rep.sub("indicator_is_per_object",
+                    "every protected kind (+ slot type, EMB, HRNP) x bases x single-bit corruptions at up to 12 positions: parse corrupted -> o1, "
+                    "parse clean -> o2, then o1 must still report false and o2 true; and in the opposite order (shared / cached PDU objects)")
+        from okdmr.dmrlib.etsi.layer2.pdu.slot_type import SlotType as _SlotType
+        from okdmr.dmrlib.etsi.layer2.pdu.embedded_signalling import EmbeddedSignalling as _Emb
+
+        def seq_cases():
+            for name, p in PROT.items():
+                kind = p.kind
+                vals_list = c03.kind_cases(kind, "quick")[:3] or [{}]
+                for vals in vals_list:
+                    try:
+                        base = kind.build(vals).as_bits().to01()
+                    except Exception:
+                        continue
+                    pos = [q for q in range(len(base)) if p.syn[q]]
+                    step = max(1, len(pos) // 12)
+                    for q in pos[::step][:12]:
+                        bad = base[:q] + ("1" if base[q] == "0" else "0") + base[q + 1:]
+                        yield name, (lambda b, kind=kind: kind.parse(bitarray(b))), p.indicator, base, bad, q
+            g = gf2.CODES["golay_20_8_7"]
+            for m in (0x13, 0xA6, 0xF9):
+                base = format(gf2.encode_systematic(m, g[0], g[1], g[3], g[4]), "020b")
+                for q in (0, 7, 8, 19):
+                    bad = base[:q] + ("1" if base[q] == "0" else "0") + base[q + 1:]
+                    yield "slot_type", (lambda b: _SlotType.from_bits(bitarray(b))), (lambda o: o.fec_parity_ok), base, bad, q
+            g = gf2.CODES["qr_16_7_6"]
+            for m in (0x0B, 0x55, 0x7E):
+                base = format(gf2.encode_systematic(m, g[0], g[1], g[3], g[4]), "016b")
+                for q in (0, 6, 7, 15):
+                    bad = base[:q] + ("1" if base[q] == "0" else "0") + base[q + 1:]
+                    yield "emb", (lambda b: _Emb.from_bits(bitarray(b))), (lambda o: o.emb_parity_ok), base, bad, q
+            cat, _ = hrnp_cases()
+            base_hdr = {n: HRNP_HEADER_ALPHA[n][0] for n in HRNP_HEADER_ALPHA}
+            for ci in range(min(4, len(cat))):
+                raw = hrnp_build(cat, ci, dict(base_hdr, packet_number=ci + 7)).as_bytes()
+                base = "".join(format(x, "08b") for x in raw)
+                for q in (7 * 8 + 3, 10 * 8, len(base) - 20):
+                    bad = base[:q] + ("1" if base[q] == "0" else "0") + base[q + 1:]
+                    yield "hrnp", (lambda b: HRNP.from_bytes(bitarray(b).tobytes())), (lambda o: o.checksum_correct), base, bad, q
+
+        n_cases = 0
+        for name, parse, ind, base, bad, q in seq_cases():
+            case = {"kind": name, "clean": base, "flipped": q}
+            n_cases += 1
+            try:
+                for first, second, want_first, order in ((bad, base, False, "corrupted_then_clean"), (base, bad, True, "clean_then_corrupted")):
+                    try:
+                        o1 = parse(first)
+                        v1 = bool(ind(o1))
+                    except Exception:
+                        continue  # decode error on the corrupted word: nothing to keep
+                    if v1 != want_first:
+                        continue  # a wrong verdict on its own is the business of the other sub-checks
+                    try:
+                        o2 = parse(second)
+                        bool(ind(o2))
+                    except Exception:
+                        pass
+                    if bool(ind(o1)) != want_first:
+                        s.violation(f"indicator_of_earlier_object_changed_by_later_parse:{name}", {**case, "order": order},
+                                    "the ok indicator of a parsed PDU changes when another PDU of the same kind is parsed afterwards")
+            except Exception as e:
+                s.violation("exception_indicator_sequence:" + exc_sig(e), case, repr(e))
+            s.case(nontrivial=True, calls=6, outcome=name, sample=case if n_cases == 1 else None)
+        s.declared = n_cases
+        s.done()
+        rep.log(f"indicator_is_per_object: {n_cases} cases, {len(s.viol)} violation signatures, {s.wall}s")
+
     rep.bounds = {
         "fec_words": "all 2^20 slot-type and all 2^16 EMB words",
         "encoded": "C03 field spaces of the 14 protected kinds (+ slot type 208, EMB 128, HRNP 911 + all 2^16 packet numbers)",
